@@ -76,6 +76,7 @@ Definition N_V2 := Eval cbv in bs "V2".
 Definition N_AESV2 := Eval cbv in bs "AESV2".
 Definition N_AESV3 := Eval cbv in bs "AESV3".
 Definition N_Identity := Eval cbv in bs "Identity".
+Definition N_None := Eval cbv in bs "None".
 Definition N_XRef := Eval cbv in bs "XRef".
 Definition N_Metadata := Eval cbv in bs "Metadata".
 Definition N_Crypt := Eval cbv in bs "Crypt".
@@ -85,7 +86,7 @@ Definition N_ObjStm := Eval cbv in bs "ObjStm".
 Inductive cfm := CF_Identity | CF_RC4 | CF_AESV2 | CF_AESV3.
 
 Definition cfm_method (f : cfm) : bytes :=
-  match f with CF_Identity => N_Identity | CF_RC4 => N_V2 | CF_AESV2 => N_AESV2 | CF_AESV3 => N_AESV3 end.
+  match f with CF_Identity => N_None | CF_RC4 => N_V2 | CF_AESV2 => N_AESV2 | CF_AESV3 => N_AESV3 end.
 
 (* BTreeMap<Vec<u8>, _>: association list sorted by the lexicographic order of the keys *)
 Fixpoint bytes_ltb (a b : bytes) : bool :=
@@ -407,13 +408,9 @@ Definition slice (l : bytes) (from n : nat) : bytes := firstn n (skipn from l).
 
 Definition trunc_pw (pw : bytes) : bytes := firstn (N.to_nat PW_TRUNC) pw.
 
-(* Algorithm 13: validate_permissions.  As the code stands the ECB decryption acts on a temporary
-   ([decrypt_block_mut(&mut bytes.into())] converts the array BY VALUE), so the tests below look at the
-   stored /Perms bytes themselves; [compute_permissions] has the same shape and stores the block
-   unencrypted.  lopdf agrees with itself (property C05); the deviation from ISO 32000-2 Algorithms 10
-   and 13 belongs to property C06. *)
+(* Algorithm 13: validate_permissions *)
 Definition validate_permissions (P : prims) (a : palg) (fek : bytes) : res unit :=
-  let b := pa_perms_enc a in
+  let b := p_aes_dec P fek (pa_perms_enc a) in
   if negb (bytes_eqb (slice b 9 3) (bs "adb")) then Err D_IncorrectPassword
   else if negb (bytes_eqb (firstn 3 b) (firstn 3 (N_to_le 8 (p_value (pa_perms a))))) then Err D_IncorrectPassword
   else if negb (byte_eqb (nth 8 b x00) (if pa_encrypt_metadata a then "T"%byte else "F"%byte))
@@ -455,9 +452,8 @@ Definition owner_value_r6 (P : prims) (a : palg) (fek pw0 rnd : bytes) : bytes *
 Definition perms_plain (a : palg) (rnd : bytes) : bytes :=
   N_to_le 8 (p_value (pa_perms a)) ++ [if pa_encrypt_metadata a then "T"%byte else "F"%byte]
   ++ bs "adb" ++ fit 4 rnd.
-(* the encrypted copy is dropped (see validate_permissions): the plain block is returned *)
 Definition perms_r6 (P : prims) (a : palg) (fek rnd : bytes) : bytes :=
-  perms_plain a rnd.
+  p_aes_enc P fek (perms_plain a rnd).
 
 (* Algorithm 11 / 12 *)
 Definition auth_user_r6 (P : prims) (a : palg) (pw0 : bytes) : res unit :=
@@ -546,10 +542,11 @@ Definition with_U (a : palg) (u ue : bytes) : palg :=
 
 Definition draw (rnd : list bytes) (k : nat) : bytes := nth k rnd [].
 
-(* V1 / V2 / V4: O (Algorithm 3), then U (Algorithm 4 or 5, computed with O in place), then the key *)
+(* V1 / V2 / V4: O (Algorithm 3; an empty owner password means "none": the user password is used), then U
+   (Algorithm 4 or 5, computed with O in place), then the key *)
 Definition try_from_r4 (P : prims) (d : doc) (a0 : palg) (owner user : bytes) (rnd : list bytes)
            (cfs : cfmap) (stmf strf : bytes) : res estate :=
-  rlet o := owner_value_r4 P a0 owner user in
+  rlet o := owner_value_r4 P a0 (match owner with [] => user | _ => owner end) user in
   let a := with_O a0 o in
   rlet u := (if (pa_revision a =? 2)%Z then user_value_r2 P a d user
              else user_value_r3 P a d user (draw rnd 0)) in
@@ -628,7 +625,7 @@ Definition get_crypt_filters (d : doc) : cfmap :=
                  if bytes_eqb n N_V2 then bt_insert m (fst nf) CF_RC4
                  else if bytes_eqb n N_AESV2 then bt_insert m (fst nf) CF_AESV2
                  else if bytes_eqb n N_AESV3 then bt_insert m (fst nf) CF_AESV3
-                 else if bytes_eqb n N_Identity then bt_insert m (fst nf) CF_Identity
+                 else if bytes_eqb n N_None || bytes_eqb n N_Identity then bt_insert m (fst nf) CF_Identity
                  else m
                | _ => bt_insert m (fst nf) CF_Identity
                end
@@ -651,8 +648,8 @@ Definition decode (P : prims) (d : doc) (pw : bytes) : res estate :=
         rlet k := compute_fek P a d pw in
         let cfs := if (pa_version a <? 4)%Z then [] else get_crypt_filters d in
         let v45 := (pa_version a =? 4)%Z || (pa_version a =? 5)%Z in
-        let stmf := if v45 then match dict_get e K_StmF with Some (OName n) => n | _ => [] end else [] in
-        let strf := if v45 then match dict_get e K_StrF with Some (OName n) => n | _ => [] end else [] in
+        let stmf := if v45 then match dict_get e K_StmF with Some (OName n) => n | _ => N_Identity end else [] in
+        let strf := if v45 then match dict_get e K_StrF with Some (OName n) => n | _ => N_Identity end else [] in
         Ok {| es_version := pa_version a; es_revision := pa_revision a; es_key_length := pa_length a;
               es_encrypt_metadata := pa_encrypt_metadata a; es_crypt_filters := cfs; es_key := k;
               es_stmf := stmf; es_strf := strf; es_O := pa_O a; es_OE := pa_OE a; es_U := pa_U a;
@@ -661,23 +658,22 @@ Definition decode (P : prims) (d : doc) (pw : bytes) : res estate :=
     end
   end.
 
-(* get_stream_filter / get_string_filter: unknown names fall back to RC4 *)
-Definition stream_filter (st : estate) : cfm :=
-  match bt_get (es_crypt_filters st) (es_stmf st) with Some f => f | None => CF_RC4 end.
-Definition string_filter (st : estate) : cfm :=
-  match bt_get (es_crypt_filters st) (es_strf st) with Some f => f | None => CF_RC4 end.
+(* get_crypt_filter: the predefined name Identity, else the CF entry, else (unknown name) RC4 *)
+Definition get_crypt_filter (st : estate) (name : bytes) : cfm :=
+  if bytes_eqb name N_Identity then CF_Identity
+  else match bt_get (es_crypt_filters st) name with Some f => f | None => CF_RC4 end.
+Definition stream_filter (st : estate) : cfm := get_crypt_filter st (es_stmf st).
+Definition string_filter (st : estate) : cfm := get_crypt_filter st (es_strf st).
 
 (* ---------- encrypt_object / decrypt_object ---------- *)
 Definition is_xref_stream (o : obj) : bool :=
   match o with OStream d _ => has_type d N_XRef | _ => false end.
-(* Object::type_name *)
-Definition type_name (o : obj) : option bytes :=
-  match o with ODict d => get_type d | OStream d _ => get_type d | _ => None end.
-(* the two early returns shared by encrypt_object and decrypt_object *)
+Definition is_metadata_stream (o : obj) : bool :=
+  match o with OStream d _ => has_type d N_Metadata | _ => false end.
+(* the two early returns shared by encrypt_object and decrypt_object: cross-reference streams, and the
+   metadata STREAM when EncryptMetadata is false *)
 Definition skip_object (st : estate) (o : obj) : bool :=
-  is_xref_stream o ||
-  ((match type_name o with Some t => bytes_eqb t N_Metadata | None => false end)
-   && negb (es_encrypt_metadata st)).
+  is_xref_stream o || (is_metadata_stream o && negb (es_encrypt_metadata st)).
 
 (* Stream::filters *)
 Definition stream_filters (d : dict) : option (list bytes) :=
@@ -687,21 +683,22 @@ Definition stream_filters (d : dict) : option (list bytes) :=
   | _ => None
   end.
 
-(* the per-stream Crypt filter override *)
+(* the per-stream Crypt filter override: a stream whose Filter lists Crypt always has one; whatever is
+   missing or ill-typed on the way to DecodeParms.Name, and an unknown name, give Identity *)
 Definition override_filter (st : estate) (o : obj) : option cfm :=
   match o with
   | OStream d _ =>
     match stream_filters d with
     | Some fs =>
       if existsb (bytes_eqb N_Crypt) fs then
-        match dict_get d K_DecodeParms with
-        | Some (ODict dp) =>
-          Some (match dict_get dp K_Name with
+        Some (match dict_get d K_DecodeParms with
+              | Some (ODict dp) =>
+                match dict_get dp K_Name with
                 | Some (OName n) => match bt_get (es_crypt_filters st) n with Some f => f | None => CF_Identity end
                 | _ => CF_Identity
-                end)
-        | _ => None
-        end
+                end
+              | _ => CF_Identity
+              end)
       else None
     | None => None
     end
@@ -746,8 +743,17 @@ Fixpoint encrypt_object (P : prims) (st : estate) (id : oid) (o : obj) (ivs : li
       Ok (OStr (fst r) h, snd r)
     | OStream d c =>
       let f := stream_cf st o in
-      rlet r := cf_encrypt P f (cf_compute_key P f (es_key st) id) c ivs in
-      Ok (set_content d (fst r), snd r)
+      (* first every value of the stream dictionary, in order, then the content *)
+      rlet rd := (fix go (d : dict) (ivs : list bytes) : res (dict * list bytes) :=
+                    match d with
+                    | [] => Ok ([], ivs)
+                    | (k, x) :: d' =>
+                      rlet r1 := encrypt_object P st id x ivs in
+                      rlet r2 := go d' (snd r1) in
+                      Ok ((k, fst r1) :: fst r2, snd r2)
+                    end) d ivs in
+      rlet r := cf_encrypt P f (cf_compute_key P f (es_key st) id) c (snd rd) in
+      Ok (set_content (fst rd) (fst r), snd r)
     | _ => Ok (o, ivs)
     end.
 
@@ -781,8 +787,16 @@ Fixpoint decrypt_object (P : prims) (st : estate) (id : oid) (o : obj) : res obj
       Ok (OStr p h)
     | OStream d c =>
       let f := stream_cf st o in
+      rlet d' := (fix go (d : dict) : res dict :=
+                    match d with
+                    | [] => Ok []
+                    | (k, x) :: d' =>
+                      rlet x' := decrypt_object P st id x in
+                      rlet r := go d' in
+                      Ok ((k, x') :: r)
+                    end) d in
       rlet p := cf_decrypt P f (cf_compute_key P f (es_key st) id) c in
-      Ok (set_content d p)
+      Ok (set_content d' p)
     | _ => Ok o
     end.
 
@@ -916,6 +930,7 @@ Fixpoint collect_ivs (st : estate) (o : obj) : list bytes :=
     | OArr l => flat_map (collect_ivs st) l
     | ODict d => flat_map (fun kv => collect_ivs st (snd kv)) d
     | OStr s _ => if is_aes (string_filter st) then [firstn 16 s] else []
-    | OStream _ c => if is_aes (stream_cf st o) then [firstn 16 c] else []
+    | OStream d c => flat_map (fun kv => collect_ivs st (snd kv)) d
+                     ++ (if is_aes (stream_cf st o) then [firstn 16 c] else [])
     | _ => []
     end.
